@@ -753,3 +753,98 @@ Proof.
   - intro E. rewrite E in Lk. cbn [List.length] in Lk. rewrite <- Lk in DM. lia.
   - cbn [List.length]. rewrite Lper. lia.
 Qed.
+
+(* ------------------------------------------------------------------------------------------ the epoch's header lines *)
+Lemma cont_not_marker ids : v2_end_marker (epoch_cont_line_v2 ids ++ nlc) = false.
+Proof.
+  unfold v2_end_marker, epoch_cont_line_v2, char_at. rewrite !Text.app_assoc.
+  rewrite (slice_app_left 2 (2 + 1) (spaces 32)) by (rewrite len_spaces; lia). reflexivity.
+Qed.
+
+Lemma int_field2_shape zero v : (0 <= v < 100)%Z -> exists x y, int_field zero 2 v = String x (String y "") /\ is_digit y = true.
+Proof.
+  intros H.
+  assert (D2 : exists x y, digits_fixed 2 v = String x (String y "") /\ is_digit y = true).
+  { cbn [digits_fixed append]. eexists _, _. split; [reflexivity|]. apply is_digit_char, mod10_range. }
+  destruct zero; unfold int_field; [exact D2|].
+  unfold render_int, sign_str. destruct (Z.ltb_spec v 0); [lia|]. rewrite Z.abs_eq by lia. cbn [append].
+  unfold render_nat. destruct (Z.ltb_spec v 10) as [A|A].
+  - unfold ndigits. rewrite ndig_lt10 by exact A. cbn [digits_fixed append]. eexists _, _. split; [reflexivity|].
+    apply is_digit_char, mod10_range.
+  - rewrite (ndigits_eq 1 v) by (change (10 ^ Z.of_nat 1)%Z with 10%Z; change (10 ^ Z.of_nat 2)%Z with 100%Z; lia).
+    unfold rjust, rjust_with. rewrite len_digits_fixed. cbn [Nat.sub rep append]. exact D2.
+Qed.
+
+Lemma first_is_marker t nsat ids : epoch_t_wf t ->
+  v2_end_marker (epoch_first_line_v2 t nsat ids ++ nlc) = true.
+Proof.
+  intros [Hy [_ [Hmo _]]].
+  assert (Yy : (0 <= ep_y t mod 100 < 100)%Z) by (apply Z.mod_pos_bound; lia).
+  destruct (int_field2_shape (ep_zero t) _ Yy) as [x [y [E Dy]]].
+  unfold v2_end_marker, epoch_first_line_v2, epoch_head_v2. cbn [cat]. rewrite E. cbn [append]. cbn [char_at slice take drop Nat.sub Nat.add].
+  unfold isnumeric, nonempty_all. cbn [all_by]. rewrite Dy. reflexivity.
+Qed.
+
+Lemma cache_eta c l0 : c_sats c = Some l0 -> c_len c = List.length l0 ->
+  {| c_epoch := c_epoch c; c_sats := Some (l0 ++ [])%list; c_len := List.length (l0 ++ [])%list; c_acc := c_acc c |} = c.
+Proof. intros H1 H2. destruct c. cbn in *. subst. rewrite List.app_nil_r. reflexivity. Qed.
+
+Definition ids_chunk_ok (ch : list string) : Prop := ch <> [] /\ List.length ch <= 12 /\ Forall sat2_id_ok ch.
+
+Lemma conts_run rate tail : forall cr l0 s c, c_sats c = Some l0 -> c_len c = List.length l0 -> Forall ids_chunk_ok cr ->
+  (exists l tl, tail = l :: tl /\ v2_end_marker (l ++ nlc) = false) ->
+  run_obs (v2_line spec_q rate G2.obs_table) v2_end_marker (map epoch_cont_line_v2 cr ++ tail) s c =
+  run_obs (v2_line spec_q rate G2.obs_table) v2_end_marker tail s
+    {| c_epoch := c_epoch c; c_sats := Some (l0 ++ map fix3 (concat cr))%list; c_len := List.length (l0 ++ map fix3 (concat cr))%list;
+       c_acc := c_acc c |}.
+Proof.
+  induction cr as [|ch r IH]; intros l0 s c Cs Cl F T.
+  - cbn [map app concat]. rewrite (cache_eta c l0 Cs Cl). reflexivity.
+  - apply Forall_cons_iff in F. destruct F as [[Ne [L12 Fi]] Fr]. cbn [map app].
+    rewrite (run_obs_cons _ _ _ _ _ _ _ _ (v2_cont_line rate ch s c l0 Cs Ne L12 Fi)).
+    assert (K : cont2 (v2_line spec_q rate G2.obs_table) v2_end_marker (map epoch_cont_line_v2 r ++ tail) s
+                  {| c_epoch := c_epoch c; c_sats := Some (l0 ++ map fix3 ch)%list; c_len := List.length (l0 ++ map fix3 ch)%list; c_acc := c_acc c |}
+                = run_obs (v2_line spec_q rate G2.obs_table) v2_end_marker (map epoch_cont_line_v2 r ++ tail) s
+                  {| c_epoch := c_epoch c; c_sats := Some (l0 ++ map fix3 ch)%list; c_len := List.length (l0 ++ map fix3 ch)%list; c_acc := c_acc c |}).
+    { destruct r as [|ch2 r2]; cbn [map app].
+      - destruct T as [l [tl [Et Em]]]. rewrite Et. cbn [cont2]. rewrite Em. reflexivity.
+      - cbn [cont2]. rewrite cont_not_marker. reflexivity. }
+    rewrite K. rewrite (IH (l0 ++ map fix3 ch)%list); try reflexivity; auto.
+    cbn [c_epoch c_acc concat]. rewrite map_app, !List.app_assoc. reflexivity.
+Qed.
+
+Section Epoch2.
+  Variable rate : option Q.
+  Variables (Y fmo fd fh fmi : Z) (fsec : Q).
+  Hypothesis HY : (1000 <= Y < 10000)%Z.
+  Notation step := (v2_line spec_q rate G2.obs_table).
+
+  Lemma epoch_head_run t ids tail s c :
+    inv2_meta Y fmo fd fh fmi fsec s -> epoch_t_wf t -> (ep_y t / 100 = Y / 100)%Z ->
+    match ep_clk t with None => True | Some v => fits_F 12 9 v end -> fits_int 3 (Z.of_nat (List.length ids)) ->
+    ids <> [] -> Forall sat2_id_ok ids ->
+    (exists l tl, tail = l :: tl /\ v2_end_marker (l ++ nlc) = false) ->
+    run_obs step v2_end_marker (epoch_lines_v2 t ids ++ tail) s c =
+    run_obs step v2_end_marker tail s
+      {| c_epoch := Some (einfo2 rate t (Z.of_nat (List.length ids))); c_sats := Some (map fix3 ids); c_len := List.length ids;
+         c_acc := c_acc c |}.
+  Proof.
+    intros Inv W Hc Fc Fn Ne Fi T.
+    destruct (chunks_props sat2_id_ok 12 ltac:(lia) (List.length ids) ids (le_n _) Fi) as [C1 C2].
+    unfold epoch_lines_v2. destruct (chunks (List.length ids) 12 ids) as [|c0 cr] eqn:E.
+    - cbn [concat] in C1. subst ids. contradiction.
+    - apply Forall_cons_iff in C2. destruct C2 as [[Ne0 [L0 F0]] Fr]. cbn [app].
+      rewrite (run_obs_cons _ _ _ _ _ _ _ _
+                 (v2_first_line rate Y fmo fd fh fmi fsec HY t (Z.of_nat (List.length ids)) c0 s c Inv W Hc Fc Fn Ne0 L0 F0)).
+      set (c1 := {| c_epoch := Some (einfo2 rate t (Z.of_nat (List.length ids))); c_sats := Some (map fix3 c0);
+                    c_len := List.length c0; c_acc := c_acc c |}).
+      assert (K : cont2 step v2_end_marker (map epoch_cont_line_v2 cr ++ tail) s c1
+                  = run_obs step v2_end_marker (map epoch_cont_line_v2 cr ++ tail) s c1).
+      { destruct cr as [|ch2 r2]; cbn [map app].
+        - destruct T as [l [tl [Et Em]]]. rewrite Et. cbn [cont2]. rewrite Em. reflexivity.
+        - cbn [cont2]. rewrite cont_not_marker. reflexivity. }
+      rewrite K.
+      rewrite (conts_run rate tail cr (map fix3 c0) s c1 eq_refl (eq_sym (map_length fix3 c0)) Fr T).
+      cbn [c_epoch c_acc c1]. rewrite <- map_app. cbn [concat] in C1. rewrite C1. rewrite map_length. reflexivity.
+  Qed.
+End Epoch2.
